@@ -856,7 +856,8 @@ def _serve():
             if os.path.exists(result_path):
                 with open(result_path, "rb") as handle:
                     try:
-                        reply["result"] = json.loads(handle.read())
+                        # the run root differs per execution: normalise it
+                        reply["result"] = json.loads(handle.read().decode("utf-8").replace(root, "<R>"))
                     except ValueError:
                         reply["status"] = "harness_error"
                         reply["harness_error"] = "unreadable result.json"
